@@ -436,15 +436,6 @@ impl Part for Worlds12 {
     }
 }
 
-/// Entry point of the libFuzzer target `pbt_c06` (fuzz/fuzz_targets/pbt_c06.rs includes this file as a module).
-#[allow(dead_code)]
-pub fn fuzz_one(data: &[u8]) -> Vec<Failure> {
-    thread_local! {
-        static S: (BoxedStrategy<<Worlds as Part>::Case>, std::collections::HashSet<String>) = (Worlds.strategy(Tier::Thorough), open_known_sigs_of("C06"));
-    }
-    S.with(|(st, known)| kvh::engine::fuzz_one(&Worlds, st, data, known))
-}
-
 fn main() {
     let mut s = Session::start(
         "C06",
@@ -460,7 +451,5 @@ fn main() {
     s.assume("the truth-table form of the oracle is cross-checked against explicit per-world enumeration in every case with n <= 8");
     s.run(&Worlds);
     s.run(&Worlds12);
-    // coverage-guided search over the same strategy and oracle (libFuzzer drives the random stream): thorough tier
-    s.fuzz_campaign(&Worlds, "libfuzzer:worlds", "pbt_c06", 3_000, 8, 8192);
     std::process::exit(s.finish());
 }
